@@ -137,6 +137,15 @@ CHECKS.update({
         design='8 C18', note=RATING_NOTE + '; the fake resolver', technique='TLC-evaluated target rule as oracle; resolver/connect calls of CLI runs compared'),
 })
 
+CHECKS.update({
+    'C15': dict(category='model_checking',
+        text=("SshOutput.tla models the output buffer (levels, always-print, sections, batch, colours); TLC checks LevelOnlyRemoves, ColourOnlyWraps, BatchOnlyDrops, NoRewrite "
+              "for every call sequence up to MaxCalls x every option set and each case is replayed into the real OutputBuffer. Through the CLI the same audit is rendered under all 72 "
+              "combinations of -b, -v, -n, -l, -j/-jj for peers covering every severity mix, with the expected findings and status from SshRating (TLC): status constant, findings "
+              "at level L = the expected findings filtered to L, colour codes only wrap, -j/-jj equal, repeat runs and 8 hash seeds (fresh interpreters) byte-identical."),
+        design='8 C15', note=RATING_NOTE, technique='TLC model checking of the buffer laws + replay; CLI option matrix against TLC-evaluated findings'),
+})
+
 NOT_BUILT = {}
 
 
